@@ -1094,7 +1094,7 @@ func (l *LinkLayerDiscoveryInfo) DecodeMedia() (info LLDPInfoMedia, err error) {
 				info.Location.Coordinate.Altitude = b2 & 0x3fffffff
 				info.Location.Coordinate.Datum = uint8(o.Info[15])
 			case LLDPLocationFormatAddress:
-				if err = checkLLDPOrgSpecificLen(o, 3); err != nil {
+				if err = checkLLDPOrgSpecificLen(o, 4); err != nil {
 					return
 				}
 				//ll := uint8(o.Info[0])
